@@ -154,7 +154,7 @@ pub fn run(ctx: &mut Ctx) {
         let fam = FAMILIES[(idx % FAMILIES.len() as u64) as usize];
         one(ctx, Some(fam), idx);
     });
-    let total = ctx.q(6000, 200000);
+    let total = ctx.q(15000, 200000);
     ctx.cases("mix", total, |ctx, idx| {
         one(ctx, None, idx);
     });
